@@ -560,7 +560,8 @@ Definition cbe_unmarshaler_init := (cache_init, (reader_init, init_rctx)).
 (* Each case is a history given to ONE implementation instance together with
    what that instance answered, call by call. *)
 Inductive reuse_case :=
-| RulesHist (cfg : rcfg) (docs : list (list event)) (rejected : list (option N))
+| RulesHist (cfg : rcfg) (docs : list (list event)) (seen : list (list event * option N))
+    (* per document: the events handed to the next receiver and the index of the first rejected event *)
 | ReaderHist (max : N) (docs : list (list (N * bool) * bool)) (seen : list (list (N * bool) * bool))
     (* per document: the source reads (n, err) an unlimited decoder performs and whether it fails;
        observed: the source reads the limited, reused decoder performed and whether it failed *)
@@ -569,6 +570,8 @@ Inductive reuse_case :=
 | CacheHist (dynamic : bool) (ops : list ty) (seen : list cres).
     (* a hang ends the history: the instance is never used again *)
 
+Definition rules_obs_eqb (a b : list event * option N) : bool :=
+  list_eqb event_eqb (fst a) (fst b) && option_eqb N.eqb (snd a) (snd b).
 Definition enc_obs_eqb (a b : option N * bytes) : bool :=
   option_eqb N.eqb (fst a) (fst b) && bytes_eqb (snd a) (snd b).
 
@@ -596,8 +599,8 @@ Fixpoint cache_run_all (dynamic : bool) (c : cache) (ops : list ty) : list cres 
 
 Definition reuse_case_ok (k : reuse_case) : bool :=
   match k with
-  | RulesHist cfg docs rej =>
-      list_eqb (option_eqb N.eqb) (map snd (run_all (rules_call cfg) init_rctx docs)) rej
+  | RulesHist cfg docs seen =>
+      list_eqb rules_obs_eqb (run_all (rules_call cfg) init_rctx docs) seen
   | ReaderHist max docs seen =>
       list_eqb reads_obs_eqb (run_all (reader_expect max) reader_init docs) seen
   | CbeEncHist docs seen =>
